@@ -19,7 +19,8 @@ import numpy as np
 
 from .. import model as M
 from .. import shrink as SH
-from ..boot import lib
+from .. import boot
+from ..boot import lib, lib2
 from ..ops import run_op
 from . import c11, c12
 
@@ -100,6 +101,30 @@ def generate(rnd, tier):
     objects = []
     for _ in range(n_obj):
         r = rnd.random()
+        prev = [o for o in objects if o["kind"] == "scores" and len(o["pos"]) > 1 and len(o["neg"]) > 1]
+        if prev and rnd.random() < 0.45:
+            # a near-clone of an earlier object: same sizes and extremes, different interior / flags / easy
+            # counts - the inputs on which a cache or memo keyed on part of the state returns stale results
+            o = copy.deepcopy(rnd.choice(prev))
+            what = rnd.choice(["interior", "interior", "flags", "easy", "last"])
+            for key in ("pos", "neg"):
+                vals = o[key]
+                lo, hi = min(vals), max(vals)
+                if what == "interior" and hi > lo:
+                    j = rnd.randrange(len(vals))
+                    if vals[j] != lo or vals.count(lo) > 1:
+                        vals[j] = type(vals[j])(lo + (hi - lo) * rnd.choice([0.25, 0.5, 0.75])) if o.get("dtype") != "int64" else int(rnd.randint(int(lo), int(hi)))
+                elif what == "last":
+                    j = vals.index(hi)
+                    vals[j] = hi + (1 if o.get("dtype") == "int64" else 0.5)
+            if what == "flags":
+                o[rnd.choice(["score_class", "equal_class"])] = rnd.choice(["pos", "neg"])
+            if what == "easy":
+                o["nb_easy_pos"] = rnd.randint(0, 5)
+                o["nb_easy_neg"] = rnd.randint(0, 5)
+            o["swaps"] = 0
+            objects.append(o)
+            continue
         if r < 0.55:
             o = c11.gen_source(rnd, rnd.choice(["tiny", "small", "small"]), rnd.random() < 0.3)
             o["kind"] = "scores"
@@ -208,8 +233,8 @@ def generate(rnd, tier):
 # building
 
 
-def build_cm(spec):
-    L = lib()
+def build_cm(spec, L=None):
+    L = L or lib()
     N, X = spec["N"], spec["X"]
     m = np.asarray(spec["data"], dtype=np.int64).reshape(X + [N, N])
     kw = {}
@@ -219,12 +244,12 @@ def build_cm(spec):
     return L.ConfusionMatrix(matrix=m, binary=bool(spec["binary"]), **kw), callers
 
 
-def build_object(spec):
+def build_object(spec, L=None):
     if spec["kind"] == "scores":
-        return M.build_scores(spec)
+        return M.build_scores(spec, L)
     if spec["kind"] == "group":
-        return M.build_group_scores(spec)
-    return build_cm(spec)
+        return M.build_group_scores(spec, L)
+    return build_cm(spec, L)
 
 
 def build_arg(a):
@@ -256,9 +281,9 @@ class CallbackFault(Exception):
     pass
 
 
-def evaluate(o, op, args, state):
-    """Performs op on o.  `state` collects callback activity."""
-    L = lib()
+def evaluate(o, op, args, state, L=None):
+    """Performs op on o.  `state` collects callback activity.  L is the package copy o belongs to."""
+    L = L or lib()
     k = op["op"]
     x = args.get(op.get("x")) if "x" in op else None
     if k == "cm":
@@ -460,9 +485,15 @@ def execute(scn, ctx):
         if not a["shape"]:
             probe("scalar_argument")
 
+    L2 = lib2()
+
     def twin_of(i):
+        """A pristine twin: rebuilt from the scenario with the *second* package copy, whose module- and
+        class-level state is reset first, so that it shares neither object nor hidden library state with
+        the object under test."""
+        boot.reset_state(boot.TWIN_ALIAS)
         spec, swaps = specs[i]
-        t, _ = build_object(spec)
+        t, _ = build_object(spec, L2)
         for _ in range(swaps):
             t = t.swap()
         return t
@@ -535,8 +566,9 @@ def execute(scn, ctx):
             tw = None
             if fl and any(f["kind"] == "interrupt" for f in fl):
                 tobj = twin_of(oi)
-                tw = {"sample": lambda: tobj.bootstrap_sample(cfg), "metric": lambda: tobj.bootstrap_metric(nm, config=cfg, threshold=thr),
-                      "ci": lambda: tobj.bootstrap_ci(nm, config=cfg, threshold=thr)}[op["what"]]
+                cfg2 = L2.BootstrapConfig(**{k_: getattr(cfg, k_) for k_ in ("nb_samples", "bootstrap_method", "sampling_method", "stratified_sampling", "smoothing", "ratio")})
+                tw = {"sample": lambda: tobj.bootstrap_sample(cfg2), "metric": lambda: tobj.bootstrap_metric(nm, config=cfg2, threshold=thr),
+                      "ci": lambda: tobj.bootstrap_ci(nm, config=cfg2, threshold=thr)}[op["what"]]
             res = run_op(ctx, fn, fl, tw)
             n_draws += res["draws"]
             n_lines += res["line_events"]
@@ -558,7 +590,7 @@ def execute(scn, ctx):
         twin = twin_of(oi)
         seam.begin_op([])
         try:
-            exp = evaluate(twin, op, args, st_twin)
+            exp = evaluate(twin, op, args, st_twin, L2)
             exp_ok = True
         except Exception as e:  # noqa: BLE001
             exp, exp_ok = e, False
@@ -566,7 +598,7 @@ def execute(scn, ctx):
         # stream positions, so a "deterministic" query that consults the RNG disagrees with its twin
         np.random.random_sample(1)
         twin2 = twin_of(oi) if fl else None
-        res = run_op(ctx, lambda: evaluate(o, op, args, st_real), fl, (lambda: evaluate(twin2, op, args, {})) if fl else None)
+        res = run_op(ctx, lambda: evaluate(o, op, args, st_real), fl, (lambda: evaluate(twin2, op, args, {}, L2)) if fl else None)
         n_lines += res["line_events"]
         n_draws += res["draws"]
         if res["interrupted"]:
@@ -626,7 +658,7 @@ def execute(scn, ctx):
                     sub_args["__s"] = xs
                     sop = dict(op, x="__s", cb=None)
                     try:
-                        rs = evaluate(twin_of(oi), sop, sub_args, {})
+                        rs = evaluate(twin_of(oi), sop, sub_args, {}, L2)
                     except Exception as e:  # noqa: BLE001
                         viol.append({"invariant": "C10.elementwise", "tags": tags,
                                      "detail": f"{k}({tags['name']}) works on the array but the scalar call on element {idx} = {xs!r} raises {type(e).__name__} [op {step}]"})
@@ -663,7 +695,7 @@ def execute(scn, ctx):
             if base is not None:
                 probe("alias_checked")
                 try:
-                    rb = evaluate(twin_of(oi), base, args, {})
+                    rb = evaluate(twin_of(oi), base, args, {}, L2)
                     if M.canon(rb) != M.canon(r):
                         viol.append({"invariant": "C10.alias", "tags": tags,
                                      "detail": f"{op['name']} returned {str(r)[:120]!r} but {base['name']} returns {str(rb)[:120]!r} [op {step}]"})
